@@ -819,14 +819,35 @@ func Norm(a Matrix, norm float64) float64 {
 		}
 		return max
 	case 2:
-		var sum float64
+		// Scaled sum of squares, as in the Normer
+		// implementations, to avoid overflow and
+		// underflow of the squares.
+		var scale float64
+		sumSquares := 1.0
 		for i := 0; i < r; i++ {
 			for j := 0; j < c; j++ {
 				v := a.At(i, j)
-				sum += v * v
+				if v == 0 {
+					continue
+				}
+				absxi := math.Abs(v)
+				if math.IsNaN(absxi) {
+					return math.NaN()
+				}
+				if scale < absxi {
+					s := scale / absxi
+					sumSquares = 1 + sumSquares*s*s
+					scale = absxi
+				} else {
+					s := absxi / scale
+					sumSquares += s * s
+				}
 			}
 		}
-		return math.Sqrt(sum)
+		if math.IsInf(scale, 1) {
+			return math.Inf(1)
+		}
+		return scale * math.Sqrt(sumSquares)
 	case math.Inf(1):
 		var max float64
 		for i := 0; i < r; i++ {
